@@ -79,8 +79,15 @@ Inductive action :=
 | Cancel                      (* the context is cancelled *)
 | LClose.                     (* Start, woken by ctx.Done, closes the listener; serve returns *)
 
-(** The session's own transition: it reads neither the context nor the listener. *)
-Definition sess_step (pz : proto) (s : session) (a : action) : option (session * nat * nat) :=
+(** The session's own transition. It is GIVEN the two shutdown flags — whether the context has been
+    cancelled and whether the listener is still open — exactly so that "a session is untouched by
+    shutdown" is a statement to prove ([session_step_ignores_shutdown]) rather than a consequence of
+    the type: the Go handlers (pkg/server/smtp/handler.go, pkg/server/pop3/handler.go) mention
+    neither the context nor the listener, and accordingly the definition below uses neither flag.
+    A model of a handler that looked at the context would make that theorem, and with it
+    [open_session_unaffected], fail. *)
+Definition sess_step (pz : proto) (ctx_cancelled listener_open : bool) (s : session) (a : action)
+  : option (session * nat * nat) :=
   (* result: new session, wg increment, wg decrement *)
   match a with
   | Begin _ =>
@@ -146,7 +153,7 @@ Definition step (y : sys) (a : action) : option sys :=
           match find_s i (ss v) with
           | None => None
           | Some s =>
-              match sess_step (pr v) s a with
+              match sess_step (pr v) (cancelled y) (lopen v) s a with
               | None => None
               | Some (s', inc, dec) =>
                   Some (mkSys (cancelled y) (mkSrv (pr v) (lopen v) (wg v + inc - dec) (upd_s i s' (ss v))))
